@@ -216,6 +216,30 @@ impl SwiftField for Field25AccountIdentification {
         }
     }
 
+    fn parse_with_variant(
+        value: &str,
+        variant: Option<&str>,
+        _field_tag: Option<&str>,
+    ) -> crate::Result<Self>
+    where
+        Self: Sized,
+    {
+        match variant {
+            Some("P") => {
+                let field = Field25P::parse(value)?;
+                Ok(Field25AccountIdentification::P(field))
+            }
+            None => {
+                // The tag without option letter is the plain account identification
+                let field = Field25NoOption::parse(value)?;
+                Ok(Field25AccountIdentification::NoOption(field))
+            }
+            Some(other) => Err(ParseError::InvalidFormat {
+                message: format!("Field 25 has no option {}", other),
+            }),
+        }
+    }
+
     fn to_swift_string(&self) -> String {
         match self {
             Field25AccountIdentification::NoOption(field) => field.to_swift_string(),
